@@ -20,7 +20,7 @@ import c14
 CONFIG = {
     "id": "C08",
     "rule": ("styled segment sequences from a grammar of every segment kind (KEY plain/quoted, INDEX, slice, ANCHOR "
-             "bare/bracketed, *, **, SEARCH 9 operators x inversion prefix/infix x term escaped/quoted/regex delimiter, "
+             "bare/bracketed, *, **, SEARCH 9 operators x inversion prefix/infix x term escaped/quoted/quoted with nested pairs of the other quote/regex delimiter, "
              "KEYWORD 7 keywords x inversion, COLLECTOR 4 operators with nested expressions): every sequence of length <= 2 "
              "(thorough: <= 3 over a reduced pool) over a pool of representative segments, every single KEY and SEARCH "
              "term text of length <= 2 (thorough <= 3 for keys) over letters, digits and all 13 escapable specials, then "
@@ -45,7 +45,10 @@ CONFIG = {
 }
 
 SEPC = {"dot": ".", "slash": "/"}
-QCH = {"sq": "'", "dq": '"'}
+# quote demarcation; "sqn" / "dqn" (search terms only): the OTHER quote character is written bare, in pairs -- a nested
+# demarcation like [b="'x'"] (Spec/C08Spec.v st_nest)
+QCH = {"sq": "'", "dq": '"', "sqn": "'", "dqn": '"'}
+OTHER = {"sqn": '"', "dqn": "'"}
 OPS = {"CONTAINS": "%", "ENDS_WITH": "$", "EQUALS": "=", "STARTS_WITH": "^", "GREATER_THAN": ">", "LESS_THAN": "<",
        "GREATER_THAN_OR_EQUAL": ">=", "LESS_THAN_OR_EQUAL": "<=", "REGEX": "=~"}
 COPS = {"NONE": "", "ADDITION": "+", "SUBTRACTION": "-", "INTERSECTION": "&"}
@@ -64,6 +67,16 @@ def key_specials(sepc):
 
 
 QUOTED_SPECIALS = "\\'\"()[]"
+
+
+def term_specials(q):
+    if q is None:
+        return OPERAND_SPECIALS
+    if q in OTHER:
+        return "\\" + QCH[q] + "()[]"
+    return QUOTED_SPECIALS
+
+
 OPERAND_SPECIALS = "\\()[]^$% '\"=!><~"
 PARAM_SPECIALS = "\\()[] '\""
 
@@ -93,9 +106,9 @@ def body(sepc, x):
         if m == "REGEX":
             tt = d + term + d
         elif q is None:
-            tt = esc_with(OPERAND_SPECIALS, term)
+            tt = esc_with(term_specials(q), term)
         else:
-            tt = QCH[q] + esc_with(QUOTED_SPECIALS, term) + QCH[q]
+            tt = QCH[q] + esc_with(term_specials(q), term) + QCH[q]
         return ("[" + ("!" if inv and prefix else "") + esc_with(OPERAND_SPECIALS, attr)
                 + ("!" if inv and not prefix else "") + OPS[m] + tt + "]")
     if k == "KW":
@@ -129,10 +142,6 @@ def is_name_char(c):
     return c in ALNUM or c in "_-"
 
 
-def quote_wrapped(s):
-    return len(s) >= 1 and s[0] in "'\"" and s[-1] == s[0]
-
-
 def balanced(e):
     d = 0
     for c in e:
@@ -149,7 +158,7 @@ def wf_expr(e):
     return e != "" and balanced(e) and all(c not in "\\ '\"[]" for c in e) and first_not_in("&", e)
 
 
-def wf_seg(prev_coll, x, f21=True):
+def wf_seg(prev_coll, x):
     k = x[0]
     if k == "KEY":
         _, t, q = x
@@ -170,7 +179,8 @@ def wf_seg(prev_coll, x, f21=True):
             return False
         if m == "REGEX":
             return d not in term and d != " " and d != "\\"
-        return True     # the former F21 clause (quote_wrapped) is gone since the parser repair
+        # a nested demarcation closes again (the former F21 clause, quote_wrapped, is gone since the parser repair)
+        return q not in OTHER or term.count(OTHER[q]) % 2 == 0
     if k == "KW":
         return True
     if k == "COLL":
@@ -182,10 +192,10 @@ def blank(text):
     return all(ord(c) in (9, 10, 11, 12, 13, 28, 29, 30, 31, 32) for c in text)
 
 
-def wf(sep, segs, f21=True):
+def wf(sep, segs):
     prev = False
     for x in segs:
-        if not wf_seg(prev, x, f21):
+        if not wf_seg(prev, x):
             return False
         prev = x[0] == "COLL"
     return len(segs) == 0 or not blank(render(sep, segs))
@@ -196,30 +206,24 @@ def no_bs_before(syms, s):
 
 
 BOTH_KEY_SYMS = "./()[]^$% '\""
-TERM_SYMS = " =^$%!><~"
+TERM_SYMS = " =^$%!><~'\""
 CANON_DELIMS = "/|#@,;:_-+"
 
 
-def wfc_seg(x, f21=True):
+def wfc_seg(x):
     k = x[0]
     if k == "KEY":
         return "*" not in x[1] and no_bs_before(BOTH_KEY_SYMS, x[1])
     if k == "SEARCH":
         _, inv, m, attr, term, prefix, q, d = x
-        if f21 and quote_wrapped(term):
-            return False
         if m == "REGEX":
             return any(c not in term for c in CANON_DELIMS)
         return no_bs_before(TERM_SYMS, term)
     return True
 
 
-def wfc(sep, segs, f21=True):
-    return wf(sep, segs, f21) and all(wfc_seg(x, f21) for x in segs)
-
-
-def nodot(segs):
-    return all(not (x[0] == "KEY" and "." in x[1]) for x in segs)
+def wfc(sep, segs):
+    return wf(sep, segs) and all(wfc_seg(x) for x in segs)
 
 
 # ---------------------------------------------------------------- wire forms
@@ -285,13 +289,13 @@ def requests(case):
     T = render(sep, segs)
     h = hexs(T)
     lw = list_wire(segs)
-    out = ["(render %s %s)" % (sep, lw), "(wf %s %s)" % (sep, lw), "(wfc %s %s)" % (sep, lw), "(nodot %s)" % lw,
+    out = ["(render %s %s)" % (sep, lw), "(wf %s %s)" % (sep, lw), "(wfc %s %s)" % (sep, lw),
            "(parse %s true %s)" % (sep, h), "(parse %s false %s)" % (sep, h), "(parse auto true %s)" % h,
            "(canon %s)" % h]
     if peer is not None:
         sep2, segs2 = peer
         lw2 = list_wire(segs2)
-        out += ["(render %s %s)" % (sep2, lw2), "(wfc %s %s)" % (sep2, lw2), "(nodot %s)" % lw2,
+        out += ["(render %s %s)" % (sep2, lw2), "(wf %s %s)" % (sep2, lw2),
                 "(yprog %s ((eq %s)))" % (h, hexs(render(sep2, segs2))),
                 "(yprog %s ((strip %s) orig str (add s6b5c2e) (strip s2f) (strip %s)))" % (h, hexs(render(sep2, segs2[:1])), h)]
     if tail is not None:
@@ -406,12 +410,12 @@ def yprog_obs(T, ops):
 def observe(case):
     sep, segs, peer, tail = case
     T = render(sep, segs)
-    out = ["s" + T.encode("utf-8", "surrogatepass").hex(), tf(wf(sep, segs)), tf(wfc(sep, segs)), tf(nodot(segs)),
+    out = ["s" + T.encode("utf-8", "surrogatepass").hex(), tf(wf(sep, segs)), tf(wfc(sep, segs)),
            parse_line(T, sep, True), parse_line(T, sep, False), parse_line(T, "auto", True), canon_obs(T)]
     if peer is not None:
         sep2, segs2 = peer
         T2 = render(sep2, segs2)
-        out += [hexs(T2), tf(wfc(sep2, segs2)), tf(nodot(segs2)), yprog_obs(T, [("eq", T2)]),
+        out += [hexs(T2), tf(wf(sep2, segs2)), yprog_obs(T, [("eq", T2)]),
                 yprog_obs(T, [("strip", render(sep2, segs2[:1])), ("orig",), ("str",), ("add", "k\\."), ("strip", "/"),
                               ("strip", T)])]
     if tail is not None:
@@ -459,17 +463,17 @@ def dot_canon_excluded(segs):
 
 def judge(case, obs):
     """The round-trip clauses, evaluated on the real YAMLPath objects' observations.  The domain is the
-    grammar's well-formedness WITHOUT the guards that only exist because of the known findings."""
+    grammar's well-formedness (no guard exists because of a known finding any more: F21 and F23 are repaired)."""
     sep, segs, peer, tail = case
     T = render(sep, segs)
     exp = expected_line(segs)
-    if wf(sep, segs, f21=False):
-        if obs[4] != exp:
-            return "parse(%s, escaped) of the rendered text %r gives %s, expected %s" % (sep, T, obs[4], exp)
-        if not excluded(sep, T) and obs[6] != exp:
-            return "parse(auto, escaped) of the rendered text %r gives %s, expected %s" % (T, obs[6], exp)
-    if wfc(sep, segs, f21=False) and not excluded(sep, T):
-        it = split_top(obs[7])
+    if wf(sep, segs):
+        if obs[3] != exp:
+            return "parse(%s, escaped) of the rendered text %r gives %s, expected %s" % (sep, T, obs[3], exp)
+        if not excluded(sep, T) and obs[5] != exp:
+            return "parse(auto, escaped) of the rendered text %r gives %s, expected %s" % (T, obs[5], exp)
+    if wfc(sep, segs) and not excluded(sep, T):
+        it = split_top(obs[6])
         cd, cs, pd, fd, ps, fs = it
         for name, c, p, f in (("dot", cd, pd, fd), ("slash", cs, ps, fs)):
             if not c.startswith("(ok"):
@@ -482,20 +486,20 @@ def judge(case, obs):
                 return "canonical %s string %s of %r re-parses to %s, expected %s" % (name, c, T, p, exp)
             if f != c:
                 return "canonical %s string %s of %r is not a fixed point: %s" % (name, c, T, f)
-    i = 8
+    i = 7
     if peer is not None:
         sep2, segs2 = peer
         T2 = render(sep2, segs2)
-        if (wfc(sep, segs, f21=False) and wfc(sep2, segs2, f21=False) and not excluded(sep, T)
-                and not excluded(sep2, T2)):
+        # == compares parsed segments (since the repair of F23): the domain is wf, not wfc
+        if wf(sep, segs) and wf(sep2, segs2) and not excluded(sep, T) and not excluded(sep2, T2):
             same = [seg_wire(x) for x in segs] == [seg_wire(x) for x in segs2]
-            got = obs[i + 3]
+            got = obs[i + 2]
             if got != "((ok %s))" % tf(same):
                 return "%r == %r gives %s but the segments are %s" % (T, T2, got, "equal" if same else "different")
-        i += 5
+        i += 4
     if tail is not None:
         whole = tuple(segs) + (tail,)
-        if wfc(sep, whole, f21=False) and wfc(sep, segs, f21=False) and not excluded(sep, T) and T != "":
+        if wfc(sep, whole) and wfc(sep, segs) and not excluded(sep, T) and T != "":
             it = split_top(obs[i + 2])
             before, _, mid_orig, mid, popped, after_orig, after = it
             if before != exp:
@@ -512,27 +516,8 @@ def judge(case, obs):
     return None
 
 
-def f21_pred(case, obs):
-    """F21, the printer half (the parser half is repaired): a search term that is, or starts and ends with, one quote
-    character reaches str() -- SearchTerms.__str__ writes it without escaping the quotes and the canonical text
-    re-parses to the bare term.  NOT covered: the rendered text itself parsing to other segments (clause 1; the
-    repaired parser half), so a revert of that repair is a violation."""
-    sep, segs, peer, tail = case
-    pool = list(segs) + (list(peer[1]) if peer else []) + ([tail] if tail else [])
-    if not any(x[0] == "SEARCH" and quote_wrapped(x[4]) for x in pool):
-        return False
-    if wf(sep, segs) and obs[4] != expected_line(segs):
-        return False
-    return True
-
-
-def f23_pred(case, obs):
-    """F23: == of two paths one of whose keys contains a dot."""
-    sep, segs, peer, tail = case
-    return peer is not None and not (nodot(segs) and nodot(peer[1]))
-
-
-FINDING_PREDS = {"f21_quote_wrapped_term": f21_pred, "f23_dot_in_key_eq": f23_pred}
+# no listed finding is left for C08 (F21: both halves repaired; F23 repaired)
+FINDING_PREDS = {}
 
 
 def classify(case, obs):
@@ -604,6 +589,15 @@ def pick_delim(rng, term):
     return rng.choice(cands) if cands else "/"
 
 
+def term_quote(rng, term, valid=True):
+    """Demarcation of a search term: none (twice as likely), a quote pair, or a quote pair inside which the other
+    quote character stays bare -- offered when its occurrences pair up (always, in the malformed stream)."""
+    q = rng.choice([None, None, "sq", "dq", "sqn", "dqn"])
+    if q in OTHER and valid and term.count(OTHER[q]) % 2 == 1:
+        q = q[:2]
+    return q
+
+
 def rnd_seg(rng, prev_coll=False, valid=True):
     r = rng.random()
     if r < 0.25:
@@ -624,7 +618,10 @@ def rnd_seg(rng, prev_coll=False, valid=True):
         term = rnd_text(rng, lo=0, extra="=!><~" * 1)
         attr = rng.choice(["a", ".", "a.b", "/a/b", "full name", "x%", "k=", "a*", "(n)", "[i]", "!"]) if rng.random() < 0.7 \
             else rnd_text(rng, extra="=!><~")
-        return ("SEARCH", rng.random() < 0.4, m, attr, term, rng.random() < 0.5, rng.choice([None, None, "sq", "dq"]),
+        if rng.random() < 0.15:
+            # quotes in pairs inside the term: what the nested demarcation is for
+            term = rng.choice(["'%s'", '"%s"', "%s''", 'a"b"%s', "'%s'\"x\"", "''%s"]) % term
+        return ("SEARCH", rng.random() < 0.4, m, attr, term, rng.random() < 0.5, term_quote(rng, term, valid),
                 pick_delim(rng, term))
     if r < 0.9:
         return ("KW", rng.random() < 0.3, rng.choice(KWS), rng.choice(["", "a", "a,b", "a, b", "1", "x\\,y", "'q r'", ")"])
@@ -653,7 +650,7 @@ def restyle(rng, segs):
         elif x[0] == "ANCHOR":
             out.append(("ANCHOR", x[1], rng.random() < 0.5))
         elif x[0] == "SEARCH":
-            out.append(x[:5] + (rng.random() < 0.5, rng.choice([None, "sq", "dq"]), pick_delim(rng, x[4])))
+            out.append(x[:5] + (rng.random() < 0.5, term_quote(rng, x[4]), pick_delim(rng, x[4])))
         else:
             out.append(x)
     return tuple(out)
@@ -670,6 +667,52 @@ def mutate(rng, segs):
         del segs[rng.randrange(len(segs))]
     else:
         segs.insert(rng.randint(0, len(segs)), rnd_seg(rng, False))
+    return tuple(segs)
+
+
+def tweak(rng, segs):
+    """The same sequence with ONE property of ONE segment changed (the inversion flag, the operator, one text, the
+    keyword, the collector operator, the index, the kind of a key / anchor): what == must tell apart."""
+    if not segs:
+        return (("KEY", "a", None),)
+    segs = list(segs)
+    i = rng.randrange(len(segs))
+    x = segs[i]
+    k = x[0]
+
+    def other_text(t):
+        return t + "a" if rng.random() < 0.5 or not t else t[:-1] + ("b" if t[-1] != "b" else "c")
+
+    if k == "KEY":
+        segs[i] = rng.choice([("KEY", other_text(x[1]), x[2]), ("ANCHOR", "a", False), ("STAR",)])
+    elif k == "INDEX":
+        segs[i] = rng.choice([("INDEX", x[1] + 1), ("KEY", str(x[1]), "sq"), ("SLICE", "%d:" % x[1])])
+    elif k == "SLICE":
+        segs[i] = ("SLICE", x[1] + "1")
+    elif k == "ANCHOR":
+        segs[i] = rng.choice([("ANCHOR", x[1] + "1", x[2]), ("KEY", x[1], None)])
+    elif k in ("STAR", "TRAV"):
+        segs[i] = ("TRAV",) if k == "STAR" else ("STAR",)
+    elif k == "SEARCH":
+        _, inv, m, attr, term, prefix, q, d = x
+        r = rng.randrange(4)
+        if r == 0:
+            inv = not inv
+        elif r == 1:
+            m = rng.choice([o for o in OPS if o != m and (o == "REGEX") == (m == "REGEX")] or ["EQUALS"])
+        elif r == 2:
+            attr = other_text(attr)
+        else:
+            term = other_text(term)
+        segs[i] = ("SEARCH", inv, m, attr, term, prefix, term_quote(rng, term) if m != "REGEX" else q, pick_delim(rng, term))
+    elif k == "KW":
+        _, inv, kw, params = x
+        r = rng.randrange(3)
+        segs[i] = ("KW", not inv, kw, params) if r == 0 else \
+            ("KW", inv, rng.choice([w for w in KWS if w != kw]), params) if r == 1 else ("KW", inv, kw, other_text(params))
+    elif k == "COLL":
+        segs[i] = rng.choice([("COLL", x[1], x[2] + "a"),
+                              ("COLL", "SUBTRACTION" if x[1] != "SUBTRACTION" else "ADDITION", x[2])])
     return tuple(segs)
 
 
@@ -691,7 +734,9 @@ def pool_segments():
           ("SEARCH", True, "REGEX", ".", "\\d+", True, None, "/"),
           ("SEARCH", False, "STARTS_WITH", "enc", "ENC[", False, None, "/"),
           ("SEARCH", False, "EQUALS", "a", "", False, None, "/"),
-          ("SEARCH", False, "EQUALS", "a", "'", False, None, "/"),          # F21
+          ("SEARCH", False, "EQUALS", "a", "'", False, None, "/"),          # F21 (parser half)
+          ("SEARCH", False, "EQUALS", "b", "'x'", False, "dqn", "/"),       # F21 (printer half): [b="'x'"]
+          ("SEARCH", True, "CONTAINS", "b", 'say "x y" \'z\'', True, "sqn", "/"),
           ("SEARCH", False, "GREATER_THAN_OR_EQUAL", "lvl", "5", False, None, "/")]
     for kw in KWS:
         P.append(("KW", False, kw, "a" if kw in ("DISTINCT", "HAS_CHILD", "UNIQUE") else ""))
@@ -705,6 +750,8 @@ def _peer_and_tail(rng, sep, segs):
     r = rng.random()
     if r < 0.45:
         peer = (rng.choice(["dot", "slash"]), restyle(rng, segs))
+    elif r < 0.7:
+        peer = (rng.choice(["dot", "slash"]), restyle(rng, tweak(rng, segs)))
     elif r < 0.9:
         peer = (rng.choice(["dot", "slash"]), mutate(rng, segs))
     else:
@@ -754,7 +801,7 @@ def chunks(tier, seed):
         for t in [""] + list(texts_upto(TEXT_ALPHA + ["=", "!"], 2)):
             for m in ("EQUALS", "STARTS_WITH", "LESS_THAN_OR_EQUAL", "REGEX"):
                 for inv in (False, True):
-                    for q in (None, "sq"):
+                    for q in (None, "sq", "dqn"):
                         x = ("SEARCH", inv, m, "a", t, rng.random() < 0.5, q, pick_delim(rng, t))
                         segs = (("KEY", "x", None), x)
                         sep = rng.choice(["dot", "slash"])
@@ -783,8 +830,15 @@ def corpus_chunks():
         ("dot", (k, ("SEARCH", False, "REGEX", "a", "'x'", False, None, "/")), None, None),                     # F21, regex, repaired
         ("dot", (k, ("SEARCH", False, "EQUALS", "a", "'x'", False, None, "/")), None, None),                    # F21, repaired
         ("slash", (k, ("SEARCH", True, "STARTS_WITH", "a", '"', False, None, "/")), None, None),                # F21, repaired
-        ("dot", (k, ("SEARCH", False, "EQUALS", "b", "'x'", False, "dq", "/")), None, None),                    # F21, printer half (known)
-        ("dot", (("KEY", "a.b", None),), ("slash", (("KEY", "a.b", None),)), None),                             # F23
+        ("dot", (k, ("SEARCH", False, "EQUALS", "b", "'x'", False, "dq", "/")), None, None),                    # F21, printer half
+        ("dot", (k, ("SEARCH", False, "EQUALS", "b", "'x'", False, "dqn", "/")), None, None),                   # F21, printer half, repaired: x[b="'x'"]
+        ("slash", (k, ("SEARCH", True, "ENDS_WITH", "b", '"', False, "sqn", "/")), None, None),                 # one bare quote: not well-formed
+        ("dot", (k, ("SEARCH", False, "EQUALS", "b", "x'y'z", False, "dqn", "/")), (
+            "slash", (k, ("SEARCH", False, "EQUALS", "b", "x'y'z", False, None, "/"))), None),
+        ("dot", (("KEY", "a.b", None),), ("slash", (("KEY", "a.b", None),)), None),                             # F23, repaired
+        ("dot", (("KEY", "a.b", "sq"),), ("dot", (("KEY", "a.b", None),)), None),                               # F23, repaired
+        ("dot", (("KEY", "a.b", None),), ("slash", (("KEY", "a", None), ("KEY", "b", None))), None),            # F23: different segments
+        ("dot", (("SEARCH", True, "EQUALS", "a", "b", False, None, "/"),), ("dot", (("SEARCH", False, "EQUALS", "a!", "b", False, None, "/"),)), None),
         ("dot", (k, ("SEARCH", False, "REGEX", "b", "a/", False, None, "|")), None, None),                      # fixed #22
         ("dot", (k, ("SEARCH", False, "CONTAINS", "a", "%", False, "sq", "/")), None, None),                    # fixed #24
         ("dot", (k,), None, ("KEY", "a b", "sq")),                                                              # fixed #25
